@@ -23,7 +23,7 @@ ID = "C07"
 LEVEL = "model_checking"
 TECHNIQUE = "explicit-state BFS over real storage objects (all dump keys as transitions, full read alphabet on every state) against a reference masked NumPy array"
 RULE = ("backends FileArray, DictArray, SharedMemoryDictArray x full shapes (3,), (2,3) (thorough: (3,) depth 5, (2,3) depth 3, (3,2) depth 2, (2,3,2) depth 1) x all 2^rank external/internal masks; "
-        "transitions = dump(key, fresh value) for EVERY external key tuple over ints in [-n,n) and slices {:, ::2, ::-1, 1:}; reads on every state = "
+        "transitions = dump(key, fresh value; for the all-external masks of rank <= 2 also the same exploration with None as the value of every odd write) for EVERY external key tuple over ints in [-n,n) and slices {:, ::2, ::-1, 1:}; reads on every state = "
         "__getitem__ for every full-rank key tuple from the same per-axis menu, to_array(splat_internal None/False/True), mask, mask_linear, has_index, "
         "get_from_index, persist+reopen, and error keys (each axis out of range by +-1, rank +-1). SharedMemoryDictArray at depth 1 for rank 2 in quick (every proxy call is an RPC). States merged by stored content with values renamed by first appearance")
 ASSUMPTIONS = ["reference = numpy masked object array of the full shape (vmc/props/c07.py:Ref)",
